@@ -272,16 +272,63 @@ def layering(rc):
     rc.coverage['layering_combinations'] = n
 
 
+def scoping(rc):
+    """(d) a parse-time setting applies to that parse only: on one parser object that is used again (a generated
+    parser, and the model's own context object), every pair (parse with the setting, then a plain parse) leaves the
+    plain parse as it is on a fresh object — whether the first parse succeeded or failed."""
+    import tatsu
+    from . import c02
+    n = 0
+    for lname, (v1, v2, body, probes) in LAYERING.items():
+        name = lname.split('/')[0]
+        text = body + '\n'
+        impl.clear_compile_cache()
+        model = tatsu.compile(text)
+        pcls, _src = c02.load_generated(model)
+
+        def fresh_plain(p):
+            return c02.generated_parse(pcls, p)
+        want = {p: fresh_plain(p) for p in probes}
+        for v in (v1, v2):
+            for first in probes:
+                for second in probes:
+                    parser = pcls()
+                    try:
+                        parser.parse(first, **{name: v})
+                        r1 = ('ok',)
+                    except Exception as e:  # noqa
+                        r1 = ('fail', type(e).__name__)
+                    try:
+                        got = ('ok', impl.norm(parser.parse(second), name == 'parseinfo' and False))
+                    except tatsu.exceptions.FailedParse as e:
+                        got = ('fail', type(e).__name__, getattr(e, 'pos', None))
+                    except Exception as e:  # noqa
+                        got = ('exc', type(e).__name__, str(e)[:100])
+                    n += 1
+                    rc.add('evaluations', 2)
+                    rc.add('transitions', 2)
+                    rc.add('states')
+                    if r1[0] != 'ok':
+                        rc.add('nontrivial')
+                    w = want[second]
+                    if got[0] != w[0] or (got[0] == 'ok' and got[1] != w[1]):
+                        rc.violation(f'd/parse-time-setting-outlives-its-parse/{name}/' + ('after-failed-parse' if r1[0] != 'ok' else 'after-successful-parse'),
+                                     setting=name, value=str(v), first=first, first_outcome=r1, second=second, got=got, want=w)
+    rc.coverage['scoping_histories'] = n
+
+
 def run(rc):
     items, runs = layout_items(rc.tier)
     rc.pmap(shard_layouts, items, runs=runs)
     rc.pmap(shard_tokens, TOKENS, chunk=1)
     layering(rc)
+    scoping(rc)
     c = rc.total.counts
     rc.rule = (f'(a) {len(LAYOUT_GRAMMARS)} grammars with comment directives x every lexeme sequence of length <= 3 x every assignment of '
                f'{len(runs)} whitespace/comment runs to every gap (leading/trailing may be empty), under three whitespace modes (default, regex directive, empty parse-time setting); (b) {len(TOKENS)} tokens x all case variants x '
                f'{len(FOLLOW)} following characters x nameguard {{default,on,off}} x namechars {{none,-,_}} x ignorecase x {{directive, parse-time setting}}; '
-               f'(c) {len(LAYERING)} settings x 27 combinations of {{absent,v1,v2}} at compile/directive/parse time; non-trivial = accepted base input / '
+               f'(c) {len(LAYERING)} settings x 27 combinations of {{absent,v1,v2}} at compile/directive/parse time; (d) the same settings x {{v1,v2}} x every pair '
+               'of probes (parse with the setting, then a plain parse) on one generated parser object against a fresh object; non-trivial = accepted base input / '
                'matching token / combination with a layer present')
     rc.coverage.update({'states': c.get('states', 0), 'transitions': c.get('transitions', 0),
                         'traces_validated_against_impl': c.get('states', 0)})
